@@ -69,6 +69,29 @@ Proof.
 Qed.
 Print Assumptions C18_grammar_exact.
 
+(* what the code accepts now: exactly the documented grammar plus - finding D14c - layouts in which an
+   unquoted shorthand pattern is one of the texts and / or / not and is directly followed by a closing
+   parenthesis ([okx true]); nothing else deviates *)
+Theorem C18_current_language : forall compile s e,
+  parse current compile s = Ok e <->
+  exists t w0 w3, okx true false 0 t /\ is_ws w0 /\ is_ws w3 /\ s = w0 ++ print t ++ w3 /\ erase t = e /\ compiled compile t.
+Proof.
+  intros compile s e. split; [apply (parse_sound_x current compile)|].
+  intros (t & w0 & w3 & Hok & Hw0 & Hw3 & -> & <- & Hc). now apply (parse_print_x current compile).
+Qed.
+Print Assumptions C18_current_language.
+
+(* the extension is strict: the layout of the D14c witness is legal for the code, not for the documentation *)
+Example C18_current_language_witness :
+  let t := CParen [] (CAtom atom_and short_unq) [] in
+  okx true false 0 t /\ ~ ok 0 t /\ print t = lit "(and)".
+Proof.
+  cbv zeta. split; [|split; [|reflexivity]].
+  - cbn [okx is_nil andb]. repeat split; discriminate.
+  - unfold ok. cbn [okx is_nil andb]. intros (_ & _ & _ & H). cbn in H. destruct H as (_ & _ & _ & H).
+    specialize (H eq_refl eq_refl). discriminate.
+Qed.
+
 (* every string that is not a legal layout is rejected with ParseError (-> ValueError) *)
 Theorem C18_other_strings_rejected : forall V compile,
   bare_keyword_atom V = false -> overflow_escapes V = false ->
